@@ -419,8 +419,11 @@ Definition vcop (k : kind) (c : cop) (arg : value) (ks : list bytes) (vs : list 
                 end
       | _ => (ks, ins_at n arg vs)
       end
-  | CRem n => (rem_at n ks, rem_at n vs)
-  | CRemKey key => match key_index ks key with Some i => (rem_at i ks, rem_at i vs) | None => (ks, vs) end
+  | CRem n => if (n <? length vs)%nat then (rem_at n ks, rem_at n vs) else (ks, vs)
+  | CRemKey key => match key_index ks key with
+                   | Some i => if (i <? length vs)%nat then (rem_at i ks, rem_at i vs) else (ks, vs)
+                   | None => (ks, vs)
+                   end
   | CClr => ([], [])
   end.
 
